@@ -8,6 +8,16 @@ CHECKS = {
    text="Exploration. Every operation on free words is compared letter-for-letter with an independent stack-reduction model: all raw letter sequences over {0,±1,±2,±3} up to length 6 (7 thorough), all ordered pairs of reduced words up to length 4 (5), all triples up to length 2, all reduced words up to length 5 (6) for the relator routines, and proptest-generated long words and register-machine histories (new/clone/all product forms/*=/inverse/power/commutator/rotation) with the model in lockstep after every step. Order axioms (antisymmetry, Equal<=>==, transitivity) are checked on all pairs/triples; the relator representative is checked to be the least element of the model's rotation/inverse set under the crate's own order. Below the bounds the property is decided exhaustively; above them it is sampled.",
    note="Trusted: the harness model of free reduction (30 lines). Letters are kept away from isize::MIN. The specific comparator is not asserted, only that it is a strict total order compatible with ==.",
    design="§4 C10"),
+ "C19": dict(
+   technique="property-based testing: exhaustive enumeration of all small digraphs + proptest-generated graphs, oracle = brute force over all vertex subsets",
+   text="Exploration. All four cut entry points are run on every simple digraph on up to 4 labelled vertices (5 in the thorough tier: 2^20 graphs) with every ordered source/sink pair, on a 1M-sample of the 5-vertex layer in the quick tier, and on proptest-generated graphs with up to 9 vertices / 16 edges (duplicate edges, loops, sparse vertex labels) and layered networks with larger cuts. For each result the harness checks: cut elements are edges/vertices of the graph, no repeats, no source/sink in a vertex cut, removal disconnects (own BFS), size equals the minimum over all vertex subsets (brute force), and inside vertices + source equal the set reachable from the source after removal.",
+   note="Trusted: the brute-force subset oracle and BFS of the harness. Vertex cuts are only asked for pairs not joined by an edge (stated precondition; excluded by construction). Isolated source/sink vertices are part of the domain.",
+   design="§4 C19"),
+ "C20": dict(
+   technique="stateful property-based testing: exhaustive short operation histories + proptest-generated long histories against a relabelling model, observed on clones and directly",
+   text="Exploration. Histories of unite/find/classes/clone over up to 3 live instances are executed against Partition<u8>, Partition<String>, Partition<(i32,i32)> and IntPartition (sparse indices up to 1000+) with a naive relabelling model per instance. After every step (on a clone, so the original's parent chains stay uncompressed, or directly) or only at the end, every element's representative is checked to lie in its model class, to be shared by the whole class, and to be unchanged since its last observation unless a union touched the class; classes() must equal the model's classes restricted to the query in first-occurrence order. All histories up to length 4 (5 thorough) over a 36-operation alphabet are enumerated; random histories have up to 60 (200) steps over up to 40 elements.",
+   note="Trusted: the relabelling model (20 lines). A unite call on two members of one class is conservatively treated as a union involving that class. classes() is only queried with duplicate-free lists.",
+   design="§4 C20"),
 }
 
 NOT_YET = "check not built yet in this session (work in progress; see DESIGN.md §4 for its design)"
